@@ -38,6 +38,7 @@ LEVEL_NOTE = ("Trusted: Coq kernel + vm_compute; hand-written model coq/Model/C1
 TECHNIQUE = "Coq proof (induction over op / event sequences) + translator + vm_compute differential correspondence"
 
 BIG = 1 << 40
+TYPES = [1, 2, 3, 4, 5, 6, 7, 20, 21, 30, 31, 49, 50, 52, 80, 81, 82, 90, 93, 94, 95, 98, 100, 192, 255]
 TIMEOUT = object()
 
 
@@ -131,11 +132,11 @@ def drive(cfg, script):
         try:
             if it[0] == "send":
                 before = len(sock.out)
-                p.send_message(msg_of(it[1]))
+                p.send_message(msg_of(it[1], it[2] if len(it) > 2 else 94))
                 ops.append(("Send", len(sock.out) - before))
             elif it[0] == "recv":
                 del psock.out[:]
-                peer.send_message(msg_of(it[1]))
+                peer.send_message(msg_of(it[1], it[2] if len(it) > 2 else 94))
                 wire = bytes(psock.out)
                 ops.append(("Recv", len(wire)))
                 sock.inq.append(wire)
@@ -274,6 +275,11 @@ def gen_script(rng, cfg):
          "cycle": (4, 4, 1, 2.0)}[profile]
     n = rng.randrange(10, 70)
     script = []
+    # what kind of message carries the bytes: IGNORE, DEBUG, UNIMPLEMENTED, kex-range, service/auth,
+    # global request, channel data, unknown high type, or a mix (the accounting must not care)
+    tprof = rng.choice([[2], [4], [3], [2, 4], [80], [94], [94, 93, 98], [30, 31, 21], [5, 6, 50], [49], [50], [192],
+                        TYPES, TYPES, TYPES])
+
     if rng.random() < 0.7:
         # the initial key exchange
         first = [("setout", gen_kind(rng)), ("setin", gen_kind(rng))]
@@ -283,16 +289,16 @@ def gen_script(rng, cfg):
         x = rng.random() * (w[0] + w[1] + w[2] + w[3])
         size = rng.choice([0, 1, 3, 7, 8, 11, 19, 27, rng.randrange(0, 60), rng.randrange(0, 300)])
         if x < w[0]:
-            script.append(("send", size))
+            script.append(("send", size, rng.choice(tprof)))
         elif x < w[0] + w[1]:
-            script.append(("recv", size))
+            script.append(("recv", size, rng.choice(tprof)))
         elif x < w[0] + w[1] + w[2]:
             script.append(("idle",))
         else:
             if profile == "cycle" and rng.random() < 0.7:
                 pair = [("setout", gen_kind(rng)), ("setin", gen_kind(rng))]
                 rng.shuffle(pair)
-                mid = [rng.choice([("send", size), ("recv", size), ("idle",)]) for _ in range(rng.randrange(0, 3))]
+                mid = [rng.choice([("send", size, rng.choice(tprof)), ("recv", size, rng.choice(tprof)), ("idle",)]) for _ in range(rng.randrange(0, 3))]
                 script += [pair[0]] + mid + [pair[1]]
             else:
                 script.append((rng.choice(["setout", "setin"]), gen_kind(rng)))
@@ -327,6 +333,64 @@ def check_direct(ctx, cfg, script, kind):
 
 # ---------------------------------------------------------------------------------------------
 # real loopback sessions
+
+class HoldSock:
+    """Wraps the server's socket: while `hold` is set, everything the server sends is collected and
+    then delivered in one piece, so the receiver sees a gap-free stream (never idle between packets)."""
+
+    def __init__(self, inner):
+        self.inner = inner
+        self.hold = False
+        self.buf = bytearray()
+        self.lock = threading.Lock()
+
+    def send(self, data):
+        with self.lock:
+            if self.hold:
+                self.buf += data
+                return len(data)
+        return self.inner.send(data)
+
+    def release(self):
+        with self.lock:
+            self.hold = False
+            data = bytes(self.buf)
+            del self.buf[:]
+        if data:
+            self.inner.send(data)
+
+    def __getattr__(self, name):
+        return getattr(self.inner, name)
+
+
+def raw_msg(kind, i, schan):
+    """A message of the given kind as the server can send it to the client at any time."""
+    from paramiko.message import Message
+    m = Message()
+    if kind == "ignore":
+        m.add_byte(bytes([2]))
+        m.add_string(bytes((i + j) & 0xFF for j in range(i % 23)))
+    elif kind == "debug":
+        m.add_byte(bytes([4]))
+        m.add_boolean(False)
+        m.add_string("note %d" % i)
+        m.add_string("")
+    elif kind == "unimplemented":
+        m.add_byte(bytes([3]))
+        m.add_int(i)
+    elif kind == "global":
+        m.add_byte(bytes([80]))
+        m.add_string("c10-noise-%d@verif" % i)
+        m.add_boolean(False)
+    else:  # channel data
+        m.add_byte(bytes([94]))
+        m.add_int(schan.remote_chanid)
+        m.add_string(bytes((i * 3 + j) & 0xFF for j in range(40)))
+    return m
+
+
+KINDS = ["ignore", "debug", "unimplemented", "global", "data"]
+
 
 def _session(ctx, server_ignores_kexinit=False, compression=None):
     import paramiko
@@ -373,7 +437,9 @@ def _session(ctx, server_ignores_kexinit=False, compression=None):
     a, b = LoopSocket(), LoopSocket()
     a.link(b)
     tc = paramiko.Transport(a, packetizer_class=mk("c"))
-    ts = paramiko.Transport(b, packetizer_class=mk("s"))
+    hold = HoldSock(b)
+    ts = paramiko.Transport(hold, packetizer_class=mk("s"))
+    ts.c10_hold = hold
     ts.add_server_key(paramiko.RSAKey.from_private_key_file(os.path.join(ctx.repo, "tests", "_support", "rsa.key")))
     if compression is not None:
         tc.get_security_options().compression = (compression,)
@@ -591,13 +657,98 @@ def session_rekey(ctx, side, attr, value, rounds, direction, compression=None):
         ts.close()
 
 
-def session_refuser(ctx, rp, op, comply):
+def session_flood(ctx, kinds, k, op, seed):
+    """Receive-heavy, never-idle link: the (complying) server delivers one gap-free burst of messages of
+    the given kinds; the k-th of them makes the client's received-packet counter reach REKEY_PACKETS.
+    The client must emit KEXINIT in the very next run-loop iteration (before it reads burst packet
+    k + 1), must not drop the peer (the burst stays 6 packets below the allowance), the exchange must
+    complete and the session must stay fully usable."""
+    import random
+    from paramiko.common import MSG_KEXINIT, MSG_NEWKEYS
+    case = {"session": "flood", "kinds": kinds, "k": k, "op": op, "seed": seed}
+    rnd = random.Random(seed)
+    tc, ts, chan, schan, log = _session(ctx)
+    try:
+        time.sleep(0.05)
+
+        evs0 = [e for e in list(log) if e[0] == "c"]
+        base = max(i for i, e in enumerate(evs0) if e[1] == "in" and e[2] == MSG_NEWKEYS) + 1
+
+        def c_in():
+            # the client's events since the NEWKEYS of the initial exchange
+            return [e for e in list(log) if e[0] == "c"][base:]
+
+        def stable():
+            a = len(c_in())
+            time.sleep(0.05)
+            return a == len(c_in())
+        _wait(stable, 3.0)
+        n0 = sum(1 for e in c_in() if e[1] == "in")
+        before = _count(log, "c", "out", MSG_KEXINIT)
+        h_before = tc.H
+        tc.packetizer.REKEY_PACKETS = n0 + k
+        tc.packetizer.REKEY_PACKETS_OVERFLOW_MAX = op
+        burst = k + op - 6
+        ts.c10_hold.hold = True
+        sent_kinds = []
+        for i in range(burst):
+            kind = rnd.choice(kinds)
+            sent_kinds.append(kind)
+            ts._send_message(raw_msg(kind, i, schan))
+        case["burst"] = burst
+        ts.c10_hold.release()
+        ok = _wait(lambda: _count(log, "c", "out", MSG_KEXINIT) == before + 1 or not tc.is_active())
+        evs = c_in()
+        ins = [i for i, e in enumerate(evs) if e[1] == "in"]
+        kx = [i for i, e in enumerate(evs) if e[1] == "out" and e[2] == MSG_KEXINIT]
+        if not tc.is_active():
+            ctx.fail("busy-link-compliant-peer-dropped", "a gap-free stream of %s crossed the threshold; the peer "
+                     "would have complied but the transport ended: %r" % ("/".join(kinds), tc.get_exception()),
+                     case=case, observed={"kexinits_sent_after_crossing": len(kx), "packets_read": len(ins) - n0})
+            return
+        if not ok or not kx:
+            ctx.fail("busy-link-no-kexinit", "threshold crossed on a never-idle link of %s but no KEXINIT within 8 s"
+                     % "/".join(kinds), case=case, observed={"packets_read": len(ins) - n0})
+            return
+        # position of the crossing packet and of the one after it in the client's own event order
+        cross, nxt = ins[n0 + k - 1], (ins[n0 + k] if len(ins) > n0 + k else len(evs))
+        if not (cross < kx[0] < nxt):
+            ctx.fail("busy-link-kexinit-late", "threshold crossed by packet %d of a gap-free stream of %s, but "
+                     "KEXINIT was not sent in the next run-loop iteration: %d more packet(s) were read first"
+                     % (k, "/".join(kinds), sum(1 for i in ins if cross < i < kx[0])), case=case,
+                     expected="KEXINIT between burst packets %d and %d" % (k, k + 1),
+                     observed={"crossing_kind": sent_kinds[k - 1],
+                               "packets_read_before_kexinit": sum(1 for i in ins if i < kx[0]) - n0})
+            return
+        if not _wait(lambda: (not tc.packetizer.need_rekey()) and tc.H != h_before and not tc.in_kex
+                     and not ts.in_kex):
+            ctx.fail("rekey-not-completed", "KEXINIT sent on a busy link but the exchange did not complete within "
+                     "8 s", case=case, observed={"need_rekey": tc.packetizer.need_rekey(),
+                                                 "exc": repr(tc.get_exception() or ts.get_exception())})
+            return
+        tc.packetizer.REKEY_PACKETS = BIG
+        chan.settimeout(0.5)
+        try:
+            while chan.recv_ready():
+                chan.recv(65536)          # channel data of the burst
+        except Exception:  # noqa
+            pass
+        chan.settimeout(5)
+        if not use_everything(ctx, case, tc, ts, chan, schan, "after busy-link re-key"):
+            return
+        ctx.count(("flood", tuple(kinds), k, op, seed), kind="session-flood-" + "+".join(kinds))
+    finally:
+        tc.close()
+        ts.close()
+
+
+def session_refuser(ctx, rp, op, comply, kinds=None):
     """Client asks for new keys after rp received packets and tolerates op more.  The server either
     ignores the KEXINIT and keeps sending (must be dropped after exactly op - 1 further packets)
     or complies (must not be dropped; traffic is paced so that nothing is in flight)."""
     from paramiko.common import MSG_KEXINIT, MSG_NEWKEYS
     from paramiko.ssh_exception import SSHException
-    case = {"session": "refuser", "rp": rp, "op": op, "comply": comply}
+    case = {"session": "refuser", "rp": rp, "op": op, "comply": comply, "kinds": kinds}
     tc, ts, chan, schan, log = _session(ctx, server_ignores_kexinit=not comply)
     try:
         tc.packetizer.REKEY_PACKETS = rp
@@ -607,7 +758,10 @@ def session_refuser(ctx, rp, op, comply):
         for i in range(total):
             data = bytes((i + j) & 0xFF for j in range(64))
             try:
-                schan.sendall(data)
+                if kinds and not comply:
+                    ts._send_message(raw_msg(kinds[i % len(kinds)], i, schan))
+                else:
+                    schan.sendall(data)
             except Exception:  # noqa  (peer already gone)
                 break
             if comply:
@@ -646,7 +800,8 @@ def session_refuser(ctx, rp, op, comply):
             if accepted != rp + op - 1:
                 ctx.fail("refuser-allowance", "number of packets accepted before dropping the refusing peer differs "
                          "from threshold + allowance - 1", case=case, expected=rp + op - 1, observed=accepted)
-        ctx.count(("session", tuple(sorted(case.items()))), kind="session-%s" % ("comply" if comply else "refuser"))
+        ctx.count(("session", rp, op, comply, tuple(kinds or ())),
+                  kind="session-%s%s" % ("comply" if comply else "refuser", "-" + "+".join(kinds) if kinds else ""))
     finally:
         tc.close()
         ts.close()
@@ -678,7 +833,9 @@ def run(ctx):
                 "byte-dominated, no-overflow, all-small configurations; byte thresholds multiples of 8 so that "
                 "equality is hit), operation scripts of 10-70 ops in send-heavy / receive-heavy / interleaved / "
                 "idle-heavy / re-key-cycling profiles over null and identity+HMAC ciphers; a case is non-trivial "
-                "when the re-key request goes up at least once; plus real loopback sessions")
+                "when the re-key request goes up at least once; the bytes are carried by varying message types (IGNORE, DEBUG, "
+                "UNIMPLEMENTED, kex/service/auth range, global request, channel messages, unknown types, mixes); plus real "
+                "loopback sessions incl. gap-free (never idle) floods of each message kind and refusers flooding them")
     ctx.trusted += ["model coq/Model/C10.v is hand-written; tied to paramiko/packet.py by gen/c10.py (shape check, "
                     "fail closed) and by this differential run (vm_compute of the model's own definitions)",
                     "the wire length of each packet is measured on the real object and fed to the model",
@@ -714,6 +871,10 @@ def run(ctx):
         ((4, BIG, 3, BIG), [("setin", ("ident", 16, 12)), ("setout", ("ident", 8, 20))] + [("recv", 5)] * 4 +
          [("setout", ("null",))] + [("recv", 5)] * 2 + [("setin", ("null",))] + [("recv", 1)] * 5),
     ]
+    for t in (2, 4, 3, 49, 80):
+        fixed.append(((3, BIG, 2, BIG), [("recv", 0, t)] * 3 + [("idle",)] + [("recv", 0, t)] * 3))
+        fixed.append(((BIG, 48, BIG, 32), [("send", 0, t)] * 3 + [("idle",)] + [("recv", 0, t)] * 3))
+    nfixed = len(fixed)
     for cfg, script in fixed:
         ops, trace = check_direct(ctx, cfg, script, "fixed-boundary")
         cases.append((cfg, script, ops, trace))
@@ -730,6 +891,14 @@ def run(ctx):
         guarded(ctx, session_rekey, "c", "REKEY_PACKETS", rng.randrange(70, 100), 3 if comp == "none" else 2, d1, comp)
         guarded(ctx, session_rekey, "s", "REKEY_BYTES", 512 * rng.randrange(24, 40), 2, d2, comp)
     guarded(ctx, session_refuser, rng.randrange(22, 40), rng.randrange(5, 12), False)
+    # what kind of traffic crosses the thresholds / uses up the allowance
+    guarded(ctx, session_refuser, rng.randrange(22, 40), rng.randrange(5, 12), False, ["ignore"])
+    guarded(ctx, session_refuser, rng.randrange(22, 40), rng.randrange(5, 12), False,
+            rng.choice([["debug"], ["ignore", "debug", "unimplemented", "global"], ["unimplemented"], ["global"]]))
+    floods = [["ignore"], ["debug"], ["ignore", "debug"], KINDS] + \
+        ([["unimplemented"], ["global"], ["data"], KINDS] if ctx.thorough else [[rng.choice(KINDS[2:])]])
+    for kinds in floods:
+        guarded(ctx, session_flood, kinds, rng.randrange(3, 15), rng.randrange(12, 20), rng.randrange(1 << 30))
     guarded(ctx, session_refuser, rng.randrange(22, 40), rng.randrange(8, 14), True)
     if ctx.thorough:
         for comp in comps:
@@ -753,7 +922,7 @@ def run(ctx):
         ctx.disagree("Packetizer re-key accounting differs from the model",
                      case={"cfg": list(cfg), "script": [list(s) for s in script], "ops": [list(o) for o in ops]},
                      impl=flat(trace))
-    for cfg, script, ops, trace in cases[4:6]:
+    for cfg, script, ops, trace in cases[nfixed:nfixed + 2]:
         ctx.sample({"cfg": list(cfg), "ops": [list(o) for o in ops][:20], "impl_trace(code,need_rekey)": flat(trace)[:40]})
 
 
@@ -768,8 +937,10 @@ def replay(ctx, rep):
         guarded(ctx, session_rekey, case["side"], case["attr"], case["value"], case["rounds"], case["direction"],
                 case.get("compression"))
     elif case.get("session") == "refuser":
-        guarded(ctx, session_refuser, case["rp"], case["op"], case["comply"])
-    elif case.get("scenario") in ("session_rekey", "session_refuser"):
+        guarded(ctx, session_refuser, case["rp"], case["op"], case["comply"], case.get("kinds"))
+    elif case.get("session") == "flood":
+        guarded(ctx, session_flood, case["kinds"], case["k"], case["op"], case["seed"])
+    elif case.get("scenario") in ("session_rekey", "session_refuser", "session_flood"):
         guarded(ctx, globals()[case["scenario"]], *case["args"])
     else:
         run(ctx)
